@@ -600,6 +600,9 @@ class Session(AbstractSession):
 
         src_chunksize = target.chunksize if src_chunksize is None else src_chunksize
         dest_chunksize = dest.chunksize if dest_chunksize is None else dest_chunksize
+        # memory-backed fields report no chunksize of their own: use the session's
+        src_chunksize = self.chunksize if src_chunksize is None else src_chunksize
+        dest_chunksize = self.chunksize if dest_chunksize is None else dest_chunksize
         chunksize_mult = 16 if chunksize_mult is None else chunksize_mult
 
         src_index = target.indices[:]
